@@ -20,7 +20,7 @@ package certwatcher
 
 //@ func (*CertWatcher).ReadCertificate :: cw -> err
 //@   props C14,C16,C10
-//@   structural [C14,C16:write-lock-released-on-every-path] locks_released
+//@   structural [C14,C16,C11:write-lock-released-on-every-path] locks_released
 //@   requires cw != nil
 //@   assigns cw.currentCert, cwlog, lastLoadedPair
 //@   ensures [C14:one-load-per-call] cwlog == old(cwlog) ++ seq[int]{2}
@@ -29,7 +29,7 @@ package certwatcher
 
 //@ func (*CertWatcher).GetCertificate :: cw, hello -> cert, err
 //@   props C14,C16
-//@   structural [C14,C16:read-lock-released-on-every-path] locks_released
+//@   structural [C14,C16,C11:read-lock-released-on-every-path] locks_released
 //@   requires cw != nil
 //@   assigns nothing
 //@   ensures [C14:serves-current-pair-never-errors] cert == cw.currentCert && err == nil
